@@ -542,7 +542,7 @@ func c14Package(c *Ctx) {
 		dk, ak := 0, 0
 		dres := guard(func() {
 			dstutil.Apply(dpkg, func(cur *dstutil.Cursor) bool {
-				if f, ok := cur.Node().(*dst.File); ok && cur.Name() == "Files" {
+				if f, ok := cur.Node().(*dst.File); ok && cur.Parent() == dst.Node(dpkg) {
 					dlog = append(dlog, "pre "+dname[f])
 					if dk == sc.deleteAt {
 						cur.Delete()
@@ -555,7 +555,7 @@ func c14Package(c *Ctx) {
 				}
 				return true
 			}, func(cur *dstutil.Cursor) bool {
-				if f, ok := cur.Node().(*dst.File); ok && cur.Name() == "Files" {
+				if f, ok := cur.Node().(*dst.File); ok && cur.Parent() == dst.Node(dpkg) {
 					dlog = append(dlog, "post "+dname[f])
 					dk++
 					return dk-1 != sc.stopAt
@@ -565,7 +565,7 @@ func c14Package(c *Ctx) {
 		})
 		ares := guard(func() {
 			astutil.Apply(apkg, func(cur *astutil.Cursor) bool {
-				if f, ok := cur.Node().(*ast.File); ok && cur.Name() == "Files" {
+				if f, ok := cur.Node().(*ast.File); ok && cur.Parent() == ast.Node(apkg) {
 					alog = append(alog, "pre "+aname[f])
 					if ak == sc.deleteAt {
 						cur.Delete()
@@ -578,7 +578,7 @@ func c14Package(c *Ctx) {
 				}
 				return true
 			}, func(cur *astutil.Cursor) bool {
-				if f, ok := cur.Node().(*ast.File); ok && cur.Name() == "Files" {
+				if f, ok := cur.Node().(*ast.File); ok && cur.Parent() == ast.Node(apkg) {
 					alog = append(alog, "post "+aname[f])
 					ak++
 					return ak-1 != sc.stopAt
@@ -599,6 +599,10 @@ func c14Package(c *Ctx) {
 		c.Eval(key, sc.deleteAt >= 0 || sc.replace >= 0 || sc.stopAt >= 0)
 		if ares != "" {
 			continue // astutil itself refuses the script: nothing to compare
+		}
+		if len(alog) == 0 {
+			c.Infra("package traversal: astutil made no file callbacks")
+			return
 		}
 		got := strings.Join(dlog, ", ") + " => " + strings.Join(dkeys, " ")
 		want := strings.Join(alog, ", ") + " => " + strings.Join(akeys, " ")
